@@ -209,6 +209,7 @@ func vNewRunner(sc *vScenario) (*vRunner, error) {
 		vms: map[cloud.InstanceID]*vVMInfo{}, ctrs: map[string]*vCtrTrack{},
 		decisions: map[string]*vDecision{}, inherited: map[string]map[vProcRef]bool{},
 		heldNow:  map[cloud.InstanceID]bool{},
+		intended: map[cloud.InstanceID]worker.IdleBehavior{},
 		inflight: map[string]int{}, inflightDec: map[string]*vDecision{},
 		rng:     rand.New(rand.NewSource(sc.Seed ^ 0x5eed)),
 		deadGen: -1, curGen: -1,
